@@ -4,6 +4,7 @@ package vsim
 
 import (
 	"fmt"
+	"time"
 
 	"github.com/gammazero/nexus/v3/router"
 	"github.com/gammazero/nexus/v3/router/auth"
@@ -15,6 +16,8 @@ func init() {
 	Register(&PropDef{ID: "C01", Run: func(c *Ctx) { runSeq(c, seqC01) }, Config: seqConfig})
 	Register(&PropDef{ID: "C03", Run: func(c *Ctx) { runSeq(c, seqC03) }, Config: seqConfig})
 	Register(&PropDef{ID: "C12", Run: func(c *Ctx) { runSeq(c, seqC12) }, Config: seqConfig})
+	Register(&PropDef{ID: "C05", Run: func(c *Ctx) { runSeq(c, seqC05) }, Config: seqConfig})
+	Register(&PropDef{ID: "C18", Run: func(c *Ctx) { runSeq(c, seqC18) }, Config: seqConfig})
 }
 
 // seqConfig: sequential scenarios explore histories; the schedule of the
@@ -145,10 +148,17 @@ func genSeqOps(g *Rand, fl seqFlavour, nslots, n int, thorough bool) []SOp {
 			w = []int{2, 2, 10, 5, 12, 0, 0, 0, 0, 0, 0}
 		case seqC03:
 			w = []int{2, 2, 1, 0, 1, 9, 4, 10, 7, 3, 0}
+		case seqC05:
+			w = []int{3, 6, 4, 2, 4, 5, 2, 7, 3, 2, 3, 4}
+		case seqC18:
+			w = []int{3, 4, 5, 3, 3, 5, 3, 3, 2, 1, 1, 12}
 		default:
-			w = []int{2, 3, 5, 3, 6, 6, 3, 7, 5, 2, 3}
+			w = []int{2, 3, 5, 3, 6, 6, 3, 7, 5, 2, 3, 0}
 		}
-		kind := []string{"join", "leave", "sub", "unsub", "pub", "reg", "unreg", "call", "yield", "inverr", "cancel"}[g.Weighted(w...)]
+		for len(w) < 12 {
+			w = append(w, 0)
+		}
+		kind := []string{"join", "leave", "sub", "unsub", "pub", "reg", "unreg", "call", "yield", "inverr", "cancel", "meta"}[g.Weighted(w...)]
 		op.Kind = kind
 		uniq++
 		switch kind {
@@ -250,6 +260,8 @@ func genSeqOps(g *Rand, fl seqFlavour, nslots, n int, thorough bool) []SOp {
 			op.Var = g.Weighted(8, 2, 1)
 			op.URI = g.Pick("app.error.x", "wamp.error.canceled", "wamp.error.invalid_argument")
 			op.Args = wamp.List{fmt.Sprintf("e%d", uniq)}
+		case "meta":
+			genMeta(g, &op, nslots, fl)
 		case "cancel":
 			op.K = g.Intn(8)
 			op.Var = g.Weighted(6, 2, 1)
@@ -298,7 +310,9 @@ func runSeq(c *Ctx, fl seqFlavour) {
 	g := c.Gen
 	strict := g.Chance(1, 4)
 	allowDisclose := g.Chance(2, 3)
-	rc := &router.RealmConfig{URI: "r1", StrictURI: strict, AllowDisclose: allowDisclose, AnonymousAuth: true,
+	metaKill := fl == seqC05 || fl == seqC18
+	rc := &router.RealmConfig{URI: "r1", StrictURI: strict, AllowDisclose: allowDisclose, AnonymousAuth: true, EnableMetaKill: metaKill,
+		MetaStrict: fl == seqC18 && g.Chance(1, 3),
 		Authenticators: []auth.Authenticator{&StaticAuth{Roles: seqRoles}}}
 	w, err := NewWorld(c.S, &router.Config{RealmConfigs: []*router.RealmConfig{rc}})
 	if err != nil {
@@ -321,14 +335,31 @@ func runSeq(c *Ctx, fl seqFlavour) {
 		mr.Lenient = true
 		q.IgnoreMeta = true
 	}
+	q.MetaKill = metaKill
+	var baseline string
+	if fl == seqC05 {
+		q.IgnoreMeta = true
+		baseline = snapshotText(w)
+	}
 	if fl == seqC12 {
 		q.IgnoreMeta = true
 		q.CheckSenderPayload = true
 	}
 	q.AddRealm(mr)
+	learnt := false
 	for i, op := range ops {
 		if !c.Kept(i) {
 			continue
+		}
+		if !learnt && op.Kind != "join" && metaKill {
+			// first non-join step: some session exists (or none: then nothing to learn from)
+			for slot := range q.curIdx {
+				if s, _ := q.cur(slot); s != nil {
+					q.LearnInternalRegs(slot)
+					learnt = true
+					break
+				}
+			}
 		}
 		op.Opts = q.resolveOpts(op.Opts)
 		q.Exec(op)
@@ -341,5 +372,153 @@ func runSeq(c *Ctx, fl seqFlavour) {
 	if fl == seqC12 {
 		CheckImmutable(c, w)
 	}
+	if fl == seqC05 && len(c.Res.Violations) == 0 && len(w.Viol) == 0 {
+		// every session leaves; all calls complete; then the router must be back at its baseline
+		for slot := range q.curIdx {
+			if s, _ := q.cur(slot); s != nil {
+				q.Exec(SOp{Kind: "leave", Slot: slot, How: g.Intn(2)})
+			}
+		}
+		simrt.WaitQuiescent("all-left")
+		time.Sleep(3 * time.Minute)
+		simrt.WaitQuiescent("all-left-timers")
+		if now := snapshotText(w); now != baseline {
+			c.Violf("router state after all sessions left differs from the baseline: baseline %s, now %s", baseline, now)
+		}
+	}
 	CloseAll(c, w, false)
+}
+
+func genMeta(g *Rand, op *SOp, nslots int, fl seqFlavour) {
+	k := fmt.Sprint(g.Intn(6))
+	sessRef := func() any {
+		switch g.Intn(6) {
+		case 0:
+			return "@sess?"
+		case 1:
+			return fmt.Sprintf("@sess:%d", op.Slot) // own id
+		}
+		return fmt.Sprintf("@sess:%d", g.Intn(nslots))
+	}
+	sRef := func() any {
+		if g.Chance(1, 6) {
+			return "@S?"
+		}
+		return "@S:" + k
+	}
+	rRef := func() any {
+		if g.Chance(1, 6) {
+			return "@R?"
+		}
+		return "@R:" + k
+	}
+	uri := func(procs bool) any {
+		if procs {
+			return g.Pick("p.a", "p.a.b", "p.b", "p.a.b.c", "p.a.x", "p.x.b", "p.", "p..b", "q.none")
+		}
+		return g.Pick("a", "a.b", "a.b.c", "b", "a.", "a..c", "", "t.x", "zzz")
+	}
+	matchOpt := func() any {
+		switch g.Intn(4) {
+		case 0:
+			return wamp.Dict{"match": "prefix"}
+		case 1:
+			return wamp.Dict{"match": "wildcard"}
+		case 2:
+			return wamp.Dict{"match": "exact"}
+		}
+		return wamp.Dict{}
+	}
+	weights := []int{3, 3, 4, 3, 3, 3, 3, 3, 3, 3, 3, 3, 3, 3, 2, 1, 1, 1, 3, 2}
+	if fl == seqC05 {
+		weights = []int{1, 1, 1, 0, 0, 0, 0, 0, 0, 0, 0, 0, 0, 0, 4, 2, 2, 1, 6, 3}
+	}
+	switch g.Weighted(weights...) {
+	case 0:
+		op.URI = "wamp.session.count"
+		if g.Chance(1, 3) {
+			op.Args = wamp.List{wamp.List{g.Pick("admin", "user", "trusted", "guest"), "user"}}
+		}
+		if g.Chance(1, 10) {
+			op.Args = wamp.List{5}
+		}
+	case 1:
+		op.URI = "wamp.session.list"
+		if g.Chance(1, 3) {
+			op.Args = wamp.List{wamp.List{g.Pick("admin", "user", "trusted", "guest")}}
+		}
+	case 2:
+		op.URI = "wamp.session.get"
+		op.Args = wamp.List{sessRef()}
+		if g.Chance(1, 10) {
+			op.Args = wamp.List{}
+		}
+	case 3:
+		op.URI = "wamp.registration.list"
+	case 4:
+		op.URI = "wamp.registration.lookup"
+		op.Args = wamp.List{uri(true)}
+		if g.Bool() {
+			op.Args = append(op.Args, matchOpt())
+		}
+	case 5:
+		op.URI = "wamp.registration.match"
+		op.Args = wamp.List{uri(true)}
+	case 6:
+		op.URI = "wamp.registration.get"
+		op.Args = wamp.List{rRef()}
+	case 7:
+		op.URI = g.Pick("wamp.registration.list_callees", "wamp.registration.count_callees")
+		op.Args = wamp.List{rRef()}
+	case 8:
+		op.URI = "wamp.subscription.list"
+	case 9:
+		op.URI = "wamp.subscription.lookup"
+		op.Args = wamp.List{uri(false)}
+		if g.Bool() {
+			op.Args = append(op.Args, matchOpt())
+		}
+	case 10:
+		op.URI = "wamp.subscription.match"
+		op.Args = wamp.List{uri(false)}
+	case 11:
+		op.URI = "wamp.subscription.get"
+		op.Args = wamp.List{sRef()}
+	case 12:
+		op.URI = "wamp.subscription.list_subscribers"
+		op.Args = wamp.List{sRef()}
+	case 13:
+		op.URI = "wamp.subscription.count_subscribers"
+		op.Args = wamp.List{sRef()}
+	case 14:
+		op.URI = "wamp.session.kill"
+		op.Args = wamp.List{sessRef()}
+		if g.Bool() {
+			op.Kw = wamp.Dict{"reason": g.Pick("app.kill.reason", "wamp.close.normal", "bad reason"), "message": "bye"}
+		}
+	case 15:
+		op.URI = "wamp.session.kill_by_authid"
+		op.Args = wamp.List{g.Pick("alice", "bob", "carol", "dave", "zed")}
+	case 16:
+		op.URI = "wamp.session.kill_by_authrole"
+		op.Args = wamp.List{g.Pick("admin", "user", "trusted", "guest")}
+	case 17:
+		op.URI = "wamp.session.kill_all"
+	case 18:
+		op.URI = "wamp.session.add_testament"
+		op.Args = wamp.List{g.Pick("a", "a.b", "t.x", "b"), wamp.List{fmt.Sprintf("will%d", g.Intn(1000))}, wamp.Dict{}}
+		op.Kw = wamp.Dict{}
+		if g.Bool() {
+			op.Kw["scope"] = g.Pick("destroyed", "detached", "bogus")
+		}
+		if g.Chance(1, 3) {
+			op.Kw["publish_options"] = wamp.Dict{"exclude_authrole": wamp.List{"user"}}
+		}
+	case 19:
+		op.URI = "wamp.session.flush_testaments"
+		op.Kw = wamp.Dict{}
+		if g.Bool() {
+			op.Kw["scope"] = g.Pick("destroyed", "detached")
+		}
+	}
 }
